@@ -250,6 +250,9 @@ ScriptVM::~ScriptVM()
     while (callStack.NumObjects()) {
         LeaveFunction();
     }
+
+    // a thread destroyed before its end has no result: whoever still waits for it reads NIL
+    m_ReturnValue.ClearPointer();
 }
 
 void* ScriptVM::operator new(size_t)
